@@ -87,6 +87,8 @@ def run_focus(res, scratch, focus, *, tier, seed, replay):
         nbconn.validate(res, scratch, tp, {sc["id"]: sc}, prop=focus)
         res.sample({"replayed": sc["id"]})
         return
+    # the real-socket leg runs first, in a fresh process context (see DESIGN.md 8.6, open observation)
+    run_real(res, scratch, ov, focus, tier, seed)
     cap = 250 if tier == "quick" else 3000
     all_scripts = []
     for c in configs(focus, tier):
@@ -106,7 +108,6 @@ def run_focus(res, scratch, focus, *, tier, seed, replay):
         res.notes.append("drift (real code left the implementation-level model; not a verdict): %s" % summ["drift_at"][:8])
     nbconn.validate(res, scratch, tp, scen, prop=focus)
     run_variants(res, scratch, binary, all_scripts, focus, tier, seed)
-    run_real(res, scratch, ov, focus, tier, seed)
     for s in all_scripts[:2]:
         res.sample({"script": s["id"], "threads": s["threads"],
                     "steps": [x.get("t") or "%s(%s)" % (x["env"], x.get("m")) for x in s["steps"]]})
